@@ -4,8 +4,10 @@
    get_feature for every candidate name, and which candidate keywords the constructor accepts.
    Both forms of _add_feature are evaluated (DESIGN section 9, two-form models): the functional form (run_ts, about which
    the theorems of Props/C11.v speak) and the mechanism form (run_ts_mech: recursion through _children as written);
-   they must produce the same state and the same outcomes, and that state must answer like the implementation. *)
-From Cassis Require Import Base TS CorrC10.
+   they must produce the same state and the same outcomes, and that state must answer like the implementation.
+   Bridge: Bridge.flatten of that state (the schema every heap-level model takes) must equal, on the observed types, the
+   chains and the ORDERED effective features read off the implementation, and what harness/scen.schema_of computes. *)
+From Cassis Require Import Base TS CorrC10 Schema Bridge.
 
 Record case := mkCase {
   c_ops : list tsop;
@@ -15,8 +17,31 @@ Record case := mkCase {
   c_fnames : list string;                     (* candidate feature names *)
   c_getf : list (list (option ofeat));        (* per type, per candidate name: get_feature *)
   c_kws : list string;                        (* candidate constructor keywords *)
-  c_accept : list N                           (* per type: mask over c_kws of the accepted keywords *)
+  c_accept : list N;                          (* per type: mask over c_kws of the accepted keywords *)
+  (* Bridge (coq/Bridge.v): the flattened view of the final state, restricted to c_types *)
+  c_impl_schema : schema;                     (* read off the implementation: supertype chains, all_features IN THE API'S ORDER *)
+  c_scen_schema : option schema;              (* harness/scen.schema_of on the declarations of the history (what every heap-level
+                                                 check hands to its model); None: the history is outside its domain D1/D2 *)
+  c_scen_exact : bool                         (* the history has the shape scen.build_ts executes (D3): feature order compared too *)
 }.
+
+(* short constructors and constants for the generated case files (harness/bridge.py uses an abbreviation only where the
+   observed value is the abbreviated one) *)
+Definition U (s : string) : string := ("uima.cas." ++ s)%string.
+Definition tAn : string := "uima.tcas.Annotation".
+Definition tAb : string := "uima.cas.AnnotationBase".
+Definition tTop : string := "uima.cas.TOP".
+Definition tSofa : string := "uima.cas.Sofa".
+Definition tI : string := "uima.cas.Integer".
+Definition tS : string := "uima.cas.String".
+Definition Ti := mkTi.
+Definition Fd := mkFd.
+Definition F1 (n : string) (r : string) (e : option string) (m : bool) : fdecl := mkFd n n r e m.
+Definition F0 (n : string) (r : string) : fdecl := mkFd n n r None false.
+Definition Fb : fdecl := F0 "begin" tI.
+Definition Fe : fdecl := F0 "end" tI.
+Definition Fs : fdecl := F0 "sofa" tSofa.
+Definition A3 (l : list string) : list string := l ++ [tAn; tAb; tTop].
 
 Definition ofeat_set_eqb (a b : list ofeat) : bool :=
   Nat.eqb (List.length a) (List.length b)
@@ -35,7 +60,14 @@ Definition check_case (c : case) : bool :=
   && list_eqb ofeat_set_eqb (map (fun n => map ofeat_of (all_features (ty_of ts n))) (c_types c)) (c_tables c)
   && list_eqb (list_eqb oofeat_eqb)
        (map (fun n => map (fun f => option_map ofeat_of (get_feature (ty_of ts n) f)) (c_fnames c)) (c_types c)) (c_getf c)
-  && nlist_eqb (map (fun n => bits (map (accepts ts n) (c_kws c))) (c_types c)) (c_accept c).
+  && nlist_eqb (map (fun n => bits (map (accepts ts n) (c_kws c))) (c_types c)) (c_accept c)
+  (* flatten (model) = the implementation's chains and ordered effective features = scen.schema_of *)
+  && schema_eqb (flatten_on ts (c_types c)) (c_impl_schema c)
+  && match c_scen_schema c with
+     | None => true
+     | Some s => if c_scen_exact c then schema_eqb (flatten_on ts (c_types c)) s
+                 else schema_eqb_unordered (flatten_on ts (c_types c)) s
+     end.
 
 (* premises of the theorems in Props/C11.v: the final state satisfies the invariant (by C11_reachable_WF it always does) *)
 Definition premises (c : case) : bool := wfb (final_ts (c_ops c) init_ts).
